@@ -19,6 +19,7 @@ import (
 	"context"
 	"fmt"
 	"io"
+	"math/rand"
 	"net"
 	"strings"
 	"sync"
@@ -79,7 +80,9 @@ func (d *c20DB) Request(ctx context.Context, rr *command.ExecuteQueryRequest) ([
 	d.run(tag)
 	return []*command.ExecuteQueryResponse{{Result: &command.ExecuteQueryResponse_Error{Error: tag}}}, 1, 9, nil
 }
-func (d *c20DB) Backup(ctx context.Context, br *command.BackupRequest, dst io.Writer) error { return nil }
+func (d *c20DB) Backup(ctx context.Context, br *command.BackupRequest, dst io.Writer) error {
+	return nil
+}
 func (d *c20DB) Load(ctx context.Context, lr *command.LoadRequest) error {
 	d.run(string(lr.GetData()))
 	return nil
@@ -87,8 +90,8 @@ func (d *c20DB) Load(ctx context.Context, lr *command.LoadRequest) error {
 
 type c20Mgr struct{}
 
-func (c20Mgr) LeaderAddr() (string, error)  { return "", nil }
-func (c20Mgr) CommitIndex() (uint64, error) { return 1, nil }
+func (c20Mgr) LeaderAddr() (string, error)                                     { return "", nil }
+func (c20Mgr) CommitIndex() (uint64, error)                                    { return 1, nil }
 func (c20Mgr) Remove(ctx context.Context, rn *command.RemoveNodeRequest) error { return nil }
 func (c20Mgr) Notify(n *command.NotifyRequest) error                           { return nil }
 func (c20Mgr) Join(n *command.JoinRequest) error                               { return nil }
@@ -103,7 +106,7 @@ type c20Dialer struct {
 }
 
 func (d *c20Dialer) Dial(addr string, timeout time.Duration) (net.Conn, error) {
-	c, err := net.DialTimeout("tcp", addr, 5*time.Second)
+	c, err := c20Dial(addr)
 	if err == nil {
 		d.mu.Lock()
 		d.conns = append(d.conns, c)
@@ -158,9 +161,10 @@ func TestVerif_C20_Client(t *testing.T) {
 		rec.Case(nontrivial, canon)
 		rec.Sample(canon)
 
-		ln, err := net.Listen("tcp", "127.0.0.1:0")
+		ln, err := c20Listen()
 		if err != nil {
-			rt.Skipf("infrastructure: %v", err)
+			rec.Label("inconclusive:infrastructure")
+			return
 		}
 		db := &c20DB{count: map[string]int{}, slow: map[string]bool{}}
 		svc := New(ln, db, c20Mgr{}, nil)
@@ -168,7 +172,8 @@ func TestVerif_C20_Client(t *testing.T) {
 		svc.connTimeout = idle
 		if err := svc.Open(); err != nil {
 			ln.Close()
-			rt.Skipf("infrastructure: %v", err)
+			rec.Label("inconclusive:infrastructure")
+			return
 		}
 		dialer := &c20Dialer{}
 		defer func() {
@@ -273,4 +278,53 @@ func TestVerif_C20_Client(t *testing.T) {
 			}
 		}
 	})
+}
+
+// ---- infrastructure helpers (not part of any oracle) ----
+
+// c20Dial connects to addr from a random loopback source address 127.x.y.z.
+// Sockets of a client that closes (or half-closes) first stay in TIME_WAIT for
+// 60 s; with 127.0.0.1 as the only source address, thousands of short
+// connections per second from many check processes would leave no free port
+// for bind(127.0.0.1:0), i.e. for every new listener on the machine. Spreading
+// the client side over 127/8 keeps those sockets away from 127.0.0.1. A few
+// retries with back-off absorb transient failures.
+func c20Dial(addr string) (net.Conn, error) {
+	var last error
+	for try := 0; try < 5; try++ {
+		d := net.Dialer{Timeout: 10 * time.Second, LocalAddr: &net.TCPAddr{IP: net.IPv4(127, byte(1+rand.Intn(250)), byte(rand.Intn(256)), byte(1+rand.Intn(250)))}}
+		c, err := d.Dial("tcp", addr)
+		if err == nil {
+			return c, nil
+		}
+		last = err
+		time.Sleep(time.Duration(25*(try+1)) * time.Millisecond)
+	}
+	return nil, last
+}
+
+// c20Listen listens on 127.0.0.1:0, retrying a few times.
+func c20Listen() (net.Listener, error) {
+	var last error
+	for try := 0; try < 5; try++ {
+		ln, err := net.Listen("tcp", "127.0.0.1:0")
+		if err == nil {
+			return ln, nil
+		}
+		last = err
+		time.Sleep(time.Duration(50*(try+1)) * time.Millisecond)
+	}
+	return nil, last
+}
+
+// c20Retry runs f up to five times with a short back-off.
+func c20Retry(f func() error) error {
+	var last error
+	for try := 0; try < 5; try++ {
+		if last = f(); last == nil {
+			return nil
+		}
+		time.Sleep(time.Duration(50*(try+1)) * time.Millisecond)
+	}
+	return last
 }
